@@ -311,6 +311,14 @@ def main(argv):
     prep = mod.prepare(ctx) if hasattr(mod, 'prepare') else {}
     if prep.get('broken'):
       broken += prep['broken']
+    # generated Lean used by this property's theorems must reflect the tree under test
+    props_path = os.path.join(LEAN, 'Brax', 'Props', f'{prop}.lean')
+    gen_path = os.path.join(LEAN, 'Brax', 'Gen', 'Math.lean')
+    if prop != 'C09' and gen_path in lean_imports(props_path):
+      import corr_C09
+      g = corr_C09.prepare(ctx)
+      if g.get('broken'):
+        ctx.notes.append('translator: ' + '; '.join(g['broken'])[:500])
     # 2 lean ----------------------------------------------------------------
     clean = tier == 'thorough' and os.environ.get('VERIF_NO_CLEAN') != '1'
     lean_res = lean_stage(ctx)
